@@ -42,6 +42,7 @@ class StreamableHTTPTransport(Transport):
 
         # Session management
         self._session_id: Optional[str] = parameters.session_id
+        self._routed_count = 0  # messages delivered to the read stream so far
         self._connected = asyncio.Event()
 
         # Message handling - using futures for compatibility
@@ -128,7 +129,28 @@ class StreamableHTTPTransport(Transport):
         """Send a message via HTTP POST with streamable response handling."""
         # Use semaphore to limit concurrent requests
         async with self._request_semaphore:
+            routed_before = self._routed_count
             await self._send_message_internal(message)
+
+            # A request must always get a terminal message: if the server's answer
+            # carried no JSON-RPC message at all (empty or comment-only SSE stream,
+            # 202 with an unusable body, a JSON value that is no message, ...),
+            # synthesise an error so the caller does not wait forever.
+            if isinstance(message, dict):
+                message_id = message.get("id")
+            else:
+                message_id = getattr(message, "id", None)
+            if message_id is not None and self._routed_count == routed_before:
+                await self._route_response(
+                    {
+                        "jsonrpc": "2.0",
+                        "id": message_id,
+                        "error": {
+                            "code": -32603,
+                            "message": "No JSON-RPC message in server response",
+                        },
+                    }
+                )
 
     async def _send_message_internal(self, message) -> None:
         """Internal message sending with proper SSE handling."""
@@ -244,7 +266,7 @@ class StreamableHTTPTransport(Transport):
                             if not response_text:
                                 logger.debug(f"Empty response body for {message_id}")
                                 # For notifications, this is fine
-                                if not message_id:
+                                if message_id is None:
                                     return
                                 # For requests, send an empty success response
                                 success_response = {
@@ -449,12 +471,14 @@ class StreamableHTTPTransport(Transport):
                     future = self._pending_requests.pop(message_id)
                     if not future.done():
                         future.set_result(response_data)
+                        self._routed_count += 1
                         logger.debug(f"Completed pending request {message_id}")
                         return
 
             # Otherwise route to incoming stream
             if self._incoming_send:
                 await self._incoming_send.send(message)
+                self._routed_count += 1
                 logger.debug(
                     f"Routed message to incoming stream: {message.method or 'response'}"
                 )
